@@ -114,6 +114,29 @@ theorem tp_real (xB Q2 t y e P1 F1 F2 M : ℝ) (hx : xB ≠ 0) (hQ : Q2 ≠ 0) (
   · field_simp
     linear_combination (G ^ 2) * hDX + (G * F2) * hDY
 
+/-! ### the generated code in the `codeTP` form -/
+
+/-- PreFacBH · (c₀ + c₁ cos φ + s₁ sin φ), BKM Eqs. (40)–(42), as bmk.py has them; the square roots are arguments:
+    `w` = √(1−y−ε²y²/4), `sq` = √Q², `r1` = √(1+ε²), `r3` = √((1+ε²)³); `lam` = beam helicity, `cv, sv` = cos, sin of
+    varphi, `cφ, sφ` = cos, sin of φ -/
+def codeTP (xB Q2 t y e Mp Mp2 K_ P1P2 lam cv sv cφ sφ F1 F2 w sq r1 r3 : ℝ) : ℝ :=
+  1 / (xB ^ 2 * y ^ 2 * (1 + e) ^ 2 * t * P1P2) *
+    (-8 * lam * cv * (2 - y) * y * sq / Mp * r1 * K_ / w * (F1 + F2) *
+        (xB ^ 3 * Mp2 / Q2 * (1 - t / Q2) * (F1 + F2) +
+          (1 - (1 - xB) * t / Q2) * (xB ^ 2 * Mp2 / t * (1 - t / Q2) * F1 + xB / 2 * F2)) +
+      -16 * lam * cv * xB * y * w * Mp / sq * r1 * (F1 + F2) *
+          (2 * K_ ^ 2 * Q2 / t / w ^ 2 * (xB * (1 - t / Q2) * F1 + t / 4 / Mp2 * F2) +
+            (1 + e) * xB * (1 - t / Q2) * (F1 + t / 4 / Mp2 * F2)) * cφ +
+      16 * lam * sv * xB ^ 2 * y * w * Mp / sq * r3 * (1 - t / Q2) * (F1 + F2) * (F1 + t / 4 / Mp2 * F2) * sφ)
+
+/-- bridging lemma: the generated BMK.TBH2TP is `codeTP` (up to field arithmetic, see Proofs/Bridge.lean) -/
+theorem TBH2TP_code (c : Consts) (m : CFFs) (pt : Pt) :
+    BMK.TBH2TP c m pt =
+      codeTP pt.xB pt.Q2 pt.t pt.y pt.eps2 c.Mp c.Mp2 pt.K_ pt.P1P2 pt.in1polarization (kcos pt.varphi) (ksin pt.varphi)
+        (kcos pt.phi) (ksin pt.phi) m.F1 m.F2 (ksqrt (1 - pt.y - pt.eps2 * pt.y ^ 2 / 4)) (ksqrt pt.Q2)
+        (ksqrt (1 + pt.eps2)) (ksqrt ((1 + pt.eps2) ^ 3)) := by
+  bridge_simp [BMK.TBH2TP, BMK.PreFacBH, BMK.cBH0TP, BMK.cBH1TP, BMK.sBH1TP, codeTP, one_mul]
+
 /-! ### transverse target spin -/
 
 /-- transverse target spin at azimuth Φ (in the frame where the lepton plane is the x–z plane) -/
@@ -195,7 +218,7 @@ theorem TBH2TP_eq_ref (c : Consts) (m : CFFs) (pt : Pt) {M r sl pT : ℝ}
     linear_combination P1_add_P2 f pt.Q2 pt.t hQ.ne' hk hk' hq hΔ hq2
   have hkap : -(pt.y * (1 + pt.eps2) * f.P1 pt.Q2 + Jr pt.Q2 pt.xB pt.t pt.y pt.eps2) / 2 = pt.K_ * kcos pt.phi := by
     rw [hP1c, P1code, ← hK2, ← hK]
-    have : Jr pt.Q2 pt.xB pt.t pt.y pt.eps2 = J c pt.Q2 pt.xB pt.t pt.y pt.eps2 := by simp only [Jr, J]
+    have : Jr pt.Q2 pt.xB pt.t pt.y pt.eps2 = J c pt.Q2 pt.xB pt.t pt.y pt.eps2 := (J_eq c _ _ _ _ _).symm
     rw [this]
     have hye : pt.y * (1 + pt.eps2) ≠ 0 := by positivity
     field_simp
@@ -205,7 +228,8 @@ theorem TBH2TP_eq_ref (c : Consts) (m : CFFs) (pt : Pt) {M r sl pT : ℝ}
     (by positivity) hP1 (by rw [← hsum]; exact hP2) hM.ne' hMM
   rw [hkap] at hZD
   rw [hd1, hd2, hd3, hd2, hd4, hd3, hd2, hs1, hs2, hs3, pol_linear, hZS, hZD]
-  simp only [BMK.TBH2TP, BMK.PreFacBH, BMK.cBH0TP, BMK.cBH1TP, BMK.sBH1TP, hMp, hM2, hrs, hr3, tpS, tpD]
+  rw [TBH2TP_code]
+  simp only [codeTP, hMp, hM2, hrs, hr3, tpS, tpD]
   rw [hP, hPP, hsum, hkT]
   have hKv' : pt.K_ = pt.y * (1 + pt.eps2) / pt.Q2 * (f.E * sl) * pT := by rw [hKv]; ring
   rw [hkT] at hKv'
